@@ -311,6 +311,18 @@ def main(argv=None):
     ctx = Ctx(prop, args.tier, seed, jobs)
     t0 = time.time()
 
+    # a ceiling on the address space of the runner and of every worker: a changed library that allocates without end ends in a
+    # MemoryError (reported as a failed check) instead of taking the machine down
+    try:
+        import resource
+
+        lim = int(float(os.environ.get("VERIF_MEM_GB", "24")) * (1 << 30))
+        soft, hard = resource.getrlimit(resource.RLIMIT_AS)
+        if hard == resource.RLIM_INFINITY or lim < hard:
+            resource.setrlimit(resource.RLIMIT_AS, (lim, hard))
+    except Exception:  # pragma: no cover
+        pass
+
     # kill -USR1 <pid> prints the Python stack of a runner or worker process (inherited by the forked pool workers)
     try:
         import faulthandler
